@@ -88,7 +88,9 @@ def make_block(case: dict[str, Any]) -> dict[str, Any]:
         ys = {"bad-generator": [["R3", next(uid)]], "none": [], "one": [[("D1", "R1", "BoxInt", "R2")[i % 4], next(uid)]], "list": [["R3", next(uid)], [("D2", "BoxStr")[i % 2], next(uid)]], "empty-list": [],
               "generator": [["R3", next(uid)], [("D2", "BoxStr")[i % 2], next(uid)]], "iter": [[("D1", "R1", "BoxInt", "R2")[i % 4], next(uid)]], "map": [["R3", next(uid)]], "tuple": [["R3", next(uid)], ["D2", next(uid)]]}[y]
         ds.append({"yield": ys, "enter": en, "exit": ex, "form": y if y in ("list", "empty-list", "generator", "iter", "map", "tuple") else ("bad-generator" if y == "bad-generator" else "auto"), "exc_kind": ("plain", "frozen", "valueeq", "unhashable", "valueeq")[(i * 2 + len(en) + len(ex) + len(case["body"]) + len(case["disposables"])) % 5] if not case.get("same_exc_kind") else case["same_exc_kind"], "falsy": (i + len(case["disposables"])) % 2 == 0, "awaitable": case.get("awaitable_all") or (i + len(en) + len(case["disposables"])) % 3 == 1})
-    return {"op": "block", "kind": "ascope", "name": "blk", "supply": [["SubD1", next(uid)]], "disposables": ds, "body": [{"op": "probe", "id": 1}], "exit": {"kind": case["body"]}, "catch": True}
+    containers = ("list", "tuple", "generator", "iter", "filter", "map", "Disposables", "list", "dict-keys")
+    container = containers[(len(ds) * 3 + sum(len(en) + 2 * len(ex) for en, ex, _ in case["disposables"]) + len(case["body"])) % len(containers)] if ds else "list"
+    return {"op": "block", "kind": "ascope", "name": "blk", "supply": [["SubD1", next(uid)]], "disposables": ds, "disposables_container": case.get("container", container), "body": [{"op": "probe", "id": 1}], "exit": {"kind": case["body"]}, "catch": True}
 
 
 def run_once(case: dict[str, Any], chooser: Chooser) -> tuple[World, str, Any, Sched, dict[str, Any]]:
